@@ -46,9 +46,15 @@ PROPS = {
                  "buffered; C15_ordered_batch_in_order / C15_unordered_batch_each_once - for every permutation of result arrivals a "
                  "batch hands each event to process() exactly once, ordered batches in batch order; C15_far_future_never_processed / "
                  "C15_rejected_never_processed - such events get their single Released inside process() and never reach the buffer "
-                 "(bound shown tight); C15_semaphore_within_capacity - held <= capacity always; C15_semaphore_balanced_partial - held = "
-                 "acquired - released (events and bytes) as long as the warning callback has not fired (missing: that it never fires, "
-                 "which needs the per-batch bookkeeping that no check result is delivered twice). Partial by nature: goroutine "
+                 "(bound shown tight); C15_semaphore_within_capacity - held <= capacity always; C15_semaphore_balanced - for every "
+                 "operation sequence in which no (batch id, position) check result is delivered twice (predicate wfOps; guaranteed by "
+                 "the real processor: one checkedC channel per batch, each check callback fires once) the semaphore's warning callback "
+                 "(over-release) never fires, held = acquired - released (events and bytes) always, hence held = 0 once everything "
+                 "acquired is released (invariant: held >= copies waiting in the buffer + what the pending inserter tasks will still "
+                 "hand to process(), events and bytes; weighted release accounting of the C14 buffer); C15_double_delivery_warns - "
+                 "decide-checked witness that without wfOps a doubly delivered result of an unordered batch fires the warning; "
+                 "C15_semaphore_balanced_partial - the hypothesis-free conditional form (balance as long as the warning has not fired). "
+                 "Partial by nature: goroutine "
                  "interleavings beyond the oracles (result arrival order, position of Stop). Correspondence: real dagprocessor.Processor "
                  "with CheckParentless results completed in harness-chosen order across several outstanding batches, small "
                  "buffer/semaphore limits, far-future boundary Lamports, failing checks, Stop with a half-delivered batch; callback "
